@@ -1559,7 +1559,7 @@ SIM_PREPS = [
     ("bell", [cirq.H(Q[0]), cirq.CNOT(Q[0], Q[1]), cirq.S(Q[1])]),
     ("ghz", [cirq.H(Q[0]), cirq.CNOT(Q[0], Q[1]), cirq.CNOT(Q[1], Q[2]), cirq.S(Q[2]) ** -1, cirq.H(Q[1])]),
 ]
-SIM_CONFIGS = ["sim", "sim_split", "run1", "run2_split", "sampler1", "sampler2"]
+SIM_CONFIGS = ["sim", "sim_split", "run1", "run2_split", "sampler1", "sampler2", "sim_keepmut", "sim_split_keepmut"]
 _SL = None
 
 
@@ -1598,39 +1598,75 @@ def run_sim(case):
     has_meas = circ.has_measurements()
     ref = interp.run(circ, list(Q))
     nontrivial = len(ref) >= 2
-    if cfg in ("sim", "sim_split"):
-        split = cfg == "sim_split"
+    if cfg.startswith("sim"):
+        split = "split" in cfg
+        mutate = cfg.endswith("keepmut")
+        who = f"CliffordSimulator(split_untangled_states={split})"
+        unitary_circuit = not has_meas and not any(isinstance(o.gate, cirq.ResetChannel) for o in ops)
+        prefix_ref = None
+        if unitary_circuit:
+            # amplitudes incl. global phase after every moment
+            prefix_ref = []
+            v = np.zeros(8, dtype=complex)
+            v[0] = 1
+            for moment in circ:
+                for op in moment.operations:
+                    v = E.embed(op_matrix(op), [q.x for q in op.qubits], (2, 2, 2)) @ v
+                prefix_ref.append(v)
+        X0 = E.embed(G.PX, [0], (2, 2, 2))
         got = {}
         npaths = 0
 
         def one(ch):
+            """Keeps every step's state object past the following moments; compares only after the iteration ended."""
             sim = cirq.CliffordSimulator(seed=ScriptedRandomState(ch), split_untangled_states=split)
-            rec, last = records_of_step(circ, sim)
-            psi = np.asarray(last.state.state_vector(), dtype=complex)
-            return rec, psi
+            recs = []
+            kept = []
+            for i, (step, moment) in enumerate(zip(sim.simulate_moment_steps(circ, qubit_order=list(Q)), circ)):
+                for op in moment.operations:
+                    for k in sorted(cirq.measurement_key_names(op)):
+                        recs.append((k, tuple(int(x) for x in step.measurements[k])))
+                st = step.state
+                lock = np.array(st.state_vector(), dtype=complex)  # value seen in lock-step
+                kept.append((st, lock, {k: tuple(int(x) for x in v) for k, v in step.measurements.items()}, step))
+                if mutate:
+                    st.apply_unitary(cirq.X(Q[0]))  # the handed-out state is a snapshot: editing it must not leak back
+            err = None
+            for i, (st, lock, meas, step) in enumerate(kept):
+                now = np.asarray(st.state_vector(), dtype=complex)
+                want = X0 @ lock if mutate else lock
+                if not close(want, now):
+                    err = (f"{who}: the state handed out by step {i} of simulate_moment_steps (kept while later moments were "
+                           f"simulated{', after X(q0) was applied to the kept copy' if mutate else ''}) changed: in lock-step "
+                           f"{np.round(lock, 4)}{' (x X0)' if mutate else ''}, after the iteration {np.round(now, 4)}")
+                    break
+                if {k: tuple(int(x) for x in v) for k, v in step.measurements.items()} != meas:
+                    err = f"{who}: measurements of kept step {i} changed after later moments"
+                    break
+                if prefix_ref is not None:
+                    m = vec_msg(prefix_ref[i], lock, f"{who} state_vector() after moment {i}"
+                                + (" (earlier handed-out states were edited by the caller)" if mutate else ""))
+                    if m:
+                        err = m
+                        break
+            return tuple(recs), kept[-1][1], err
 
-        for ch, (rec, psi) in explore(one, max_paths=4096):
+        for ch, (rec, psi, err) in explore(one, max_paths=4096):
             npaths += 1
+            if err:
+                return bad(f"{err}\n{circ}", kind="sim_kept_state" if "handed out" in err or "kept step" in err else "sim_vector", config=cfg)
             rho = np.outer(psi, psi.conj())
             if rec in got:
                 p0, r0 = got[rec]
                 got[rec] = (p0 + ch.weight, r0 + ch.weight * rho)
             else:
                 got[rec] = (ch.weight, ch.weight * rho)
-            if not has_meas and not any(isinstance(o.gate, cirq.ResetChannel) for o in ops):
-                # unitary circuit: amplitudes incl. global phase
-                v = np.zeros(8, dtype=complex)
-                v[0] = 1
-                for op in circ.all_operations():
-                    v = E.embed(cirq.unitary(op), [q.x for q in op.qubits], (2, 2, 2)) @ v
-                msg = vec_msg(v, psi, f"CliffordSimulator(split_untangled_states={split}) final state_vector()")
-                if msg:
-                    return bad(f"{msg}\n{circ}", kind="sim_vector", config=cfg)
         got = {k: (p, r / p) for k, (p, r) in got.items()}
         msg = interp.compare_dists(ref, got, atol=1e-8)
         if msg:
-            return bad(f"CliffordSimulator(split_untangled_states={split}).simulate: {msg}\n{circ}", kind="sim_distribution", config=cfg)
-        return Res(ok=True, nontrivial=nontrivial, counters={"paths": npaths})
+            return bad(f"{who}.simulate_moment_steps{' (handed-out states edited by the caller)' if mutate else ''}: {msg}\n{circ}",
+                       kind="sim_distribution", config=cfg)
+        return Res(ok=True, nontrivial=nontrivial or len(circ) >= 2, counters={"paths": npaths})
     if not has_meas:
         return Res(skipped=True, nontrivial=False)
     reps = 2 if "2" in cfg else 1
@@ -1708,7 +1744,7 @@ def sim_cases(tier):
                 if L >= 3 and not any(cirq.is_measurement(_SL[li][1]) for li in seq):
                     continue  # long measurement-free circuits are G2's job
                 for ci in range(len(SIM_CONFIGS)):
-                    if L == 4 and ci in (3, 5):
+                    if L == 4 and ci in (3, 5, 7):
                         continue
                     out.append((prep_i, seq, ci))
     return out
